@@ -293,6 +293,17 @@ func c14Eval(c *C14Case, al align.Alignment) *statSet {
 		}
 		s.d("NumMutationsComparedToReferenceSequence", strings.Join(nm, "|"))
 		s.d("ListMutationsComparedToReferenceSequence", strings.Join(lm, "|"))
+		// codon by codon (the --aa mode of stats mutations list)
+		var la []string
+		for i := 0; i < al.NbSequences(); i++ {
+			ms, err := seqObjs[i].ListMutationsComparedToReferenceSequence(al.Alphabet(), ref, true)
+			x := ""
+			for _, m := range ms {
+				x += fmt.Sprintf("%c%d%s,", m.Ref, m.Pos, string(m.Alt))
+			}
+			la = append(la, x+fmt.Sprint(err))
+		}
+		s.d("ListMutationsComparedToReferenceSequence.aa", strings.Join(la, "|"))
 	}
 	// operations whose result inherits the majority character
 	if cl, err := al.Clone(); err == nil {
@@ -1033,6 +1044,44 @@ func (c14) Run(ctx *Ctx, ci interface{}) (o Outcome) {
 			return
 		}
 		o.Add("mutation_lists_checked", int64(n))
+	}
+	// codon-by-codon list: where neither the reference nor the row holds a gap the definition leaves no choice -
+	// codon k of the row against codon k of the reference, an entry when the amino acids differ (goalign's own
+	// Sequence.Translate is the reference for codon -> amino acid: C05 is not claimed)
+	if al.Alphabet() == align.NUCLEOTIDS && c.Ref >= 0 && c.Ref < n {
+		got := strings.Split(s0.disc["ListMutationsComparedToReferenceSequence.aa"], "|")
+		ref := a.Seqs[c.Ref]
+		tr := func(q string) (string, bool) {
+			if len(q) < 3 {
+				return "", true
+			}
+			t, err := align.NewSequence("x", []uint8(q), "").Translate(0, 0)
+			if err != nil {
+				return "", false
+			}
+			return t.Sequence(), true
+		}
+		if raa, ok := tr(ref); ok && !strings.Contains(ref, "-") && len(got) == n {
+			for i := 0; i < n; i++ {
+				q := a.Seqs[i]
+				qaa, ok := tr(q)
+				if !ok || strings.Contains(q, "-") {
+					continue
+				}
+				want := ""
+				for k := 0; k < len(raa) && k < len(qaa); k++ {
+					if raa[k] != qaa[k] {
+						want += fmt.Sprintf("%c%d%c,", raa[k], k, qaa[k])
+					}
+				}
+				want += "<nil>"
+				o.Add("codon_mutation_lists_checked", 1)
+				if got[i] != want {
+					o.Fail("definition:ListMutationsComparedToReferenceSequence.aa", "row %d against reference row %d, codon by codon, neither holds a gap: %s reported, %s by definition\n%s", i, c.Ref, got[i], want, desc())
+					return
+				}
+			}
+		}
 	}
 	if o.Nontrivial {
 		o.Sample = map[string]interface{}{"alignment": a.Seqs, "alphabet": al.Alphabet(), "map_seeds": c.MapSeeds, "consensus": s0.consensus[0]}
